@@ -10,6 +10,8 @@ Definition PE off ts e r := exists n0, forall n, n0 <= n -> p_expr n off ts = Ok
 Definition PBA off cur ts e r := exists n0, forall n, n0 <= n -> p_binafter n off cur ts = Ok (e, r).
 Definition PT off ts e r := exists n0, forall n, n0 <= n -> p_term n off ts = Ok (e, r).
 Definition PIF off ts e r := exists n0, forall n, n0 <= n -> p_if n off ts = Ok (e, r).
+Definition PIF1 off cond ts e r := exists n0, forall n, n0 <= n -> p_if1 n off cond ts = Ok (e, r).
+Definition PNL off cond te ts e r := exists n0, forall n, n0 <= n -> p_if_nl n off cond te ts = Ok (e, r).
 Definition PAS off ts l r := exists n0, forall n, n0 <= n -> p_atoms n off ts = Ok (l, r).
 Definition PA off ts a r := exists n0, forall n, n0 <= n -> p_atom n off ts = Ok (a, r).
 Definition PRS off ts l r := exists n0, forall n, n0 <= n -> p_rules n off ts = Ok (l, r).
@@ -82,7 +84,7 @@ Lemma PIF_else off ts cond c1 c2 r2 tb r3 c3 r4 eb r5 :
   PIF off ts (EIf cond tb (Some eb)) r5.
 Proof.
   intros (n1 & H1) (n2 & H2) E (n3 & H3). exists (S (Nat.max n1 (Nat.max n2 n3))). intros n Hn. fuel n.
-  cbn [p_if]. rewrite H1 by lia. cbn [bind]. rewrite H2 by lia. cbn [bind]. rewrite E.
+  cbn [p_if]. rewrite H1 by lia. cbn [bind head_is_eol]. rewrite H2 by lia. cbn [bind]. rewrite E.
   rewrite H3 by lia. reflexivity.
 Qed.
 
@@ -93,18 +95,63 @@ Lemma PIF_elif off ts cond c1 c2 r2 tb r3 c3 r4 e r5 :
   PIF off ts (EIf cond tb (Some (Blk [SExpr e]))) r5.
 Proof.
   intros (n1 & H1) (n2 & H2) E (n3 & H3). exists (S (Nat.max n1 (Nat.max n2 n3))). intros n Hn. fuel n.
-  cbn [p_if]. rewrite H1 by lia. cbn [bind]. rewrite H2 by lia. cbn [bind]. rewrite E.
+  cbn [p_if]. rewrite H1 by lia. cbn [bind head_is_eol]. rewrite H2 by lia. cbn [bind]. rewrite E.
   rewrite H3 by lia. reflexivity.
 Qed.
 
-Lemma PIF_one off ts cond c1 t2 c2 r2 te c3 r4 ee r5 :
-  PE off ts cond ((TTHEN, c1) :: (t2, c2) :: r2) -> t2 <> TEOL ->
-  PE off ((t2, c2) :: r2) te ((TELSE, c3) :: r4) -> PE off r4 ee r5 ->
-  PIF off ts (EIf cond (Blk [SExpr te]) (Some (Blk [SExpr ee]))) r5.
+Lemma PIF_to1 off ts cond c1 r2 e r' :
+  PE off ts cond ((TTHEN, c1) :: r2) -> head_is_eol r2 = false -> PIF1 off cond r2 e r' -> PIF off ts e r'.
 Proof.
-  intros (n1 & H1) N (n2 & H2) (n3 & H3). exists (S (Nat.max n1 (Nat.max n2 n3))). intros n Hn. fuel n.
-  cbn [p_if]. rewrite H1 by lia. cbn [bind].
-  destruct t2; try congruence; rewrite H2 by lia; cbn [bind]; rewrite H3 by lia; reflexivity.
+  intros (n1 & H1) N (n2 & H2). ev2 n1 n2. cbn [p_if]. rewrite H1 by lia. cbn [bind]. rewrite N. apply H2; lia.
+Qed.
+
+Lemma PIF1_else off cond r2 te c3 r4 ee r5 :
+  PE off r2 te ((TELSE, c3) :: r4) -> PE off r4 ee r5 ->
+  PIF1 off cond r2 (EIf cond (Blk [SExpr te]) (Some (Blk [SExpr ee]))) r5.
+Proof.
+  intros (n1 & H1) (n2 & H2). ev2 n1 n2. cbn [p_if1]. rewrite H1 by lia. cbn [bind]. rewrite H2 by lia. reflexivity.
+Qed.
+
+Lemma PIF1_elif off cond r2 te c3 r4 e r5 :
+  PE off r2 te ((TELIF, c3) :: r4) -> PIF off r4 e r5 ->
+  PIF1 off cond r2 (EIf cond (Blk [SExpr te]) (Some (Blk [SExpr e]))) r5.
+Proof.
+  intros (n1 & H1) (n2 & H2). ev2 n1 n2. cbn [p_if1]. rewrite H1 by lia. cbn [bind]. rewrite H2 by lia. reflexivity.
+Qed.
+
+Definition hd_noelse (k : list ptok) : Prop :=
+  match k with (TELSE, _) :: _ => False | (TELIF, _) :: _ => False | _ => True end.
+
+Lemma PIF1_nl off cond r2 te r3 e r' :
+  PE off r2 te r3 -> hd_noelse r3 -> PNL off cond te r3 e r' -> PIF1 off cond r2 e r'.
+Proof.
+  intros (n1 & H1) N (n2 & H2). ev2 n1 n2. cbn [p_if1]. rewrite H1 by lia. cbn [bind].
+  destruct r3 as [|[t c] r]; [apply H2; lia|]. destruct t; try (apply H2; lia); contradiction.
+Qed.
+
+Lemma PNL_else off cond te r3 ec r4 eb r5 :
+  head_is_eol r3 = true -> skip_eol r3 = (TELSE, ec) :: r4 -> off <= ec -> PB off (skip_eol r4) eb r5 ->
+  PNL off cond te r3 (EIf cond (Blk [SExpr te]) (Some eb)) r5.
+Proof.
+  intros Hd E L (n1 & H1). ev1 n1. cbn [p_if_nl]. rewrite Hd, E. cbn [col_inside].
+  rewrite (proj2 (Nat.leb_le off ec) L). cbn [andb]. rewrite H1 by lia. reflexivity.
+Qed.
+
+Lemma PNL_elif off cond te r3 ec r4 e r5 :
+  head_is_eol r3 = true -> skip_eol r3 = (TELIF, ec) :: r4 -> off <= ec -> PIF off r4 e r5 ->
+  PNL off cond te r3 (EIf cond (Blk [SExpr te]) (Some (Blk [SExpr e]))) r5.
+Proof.
+  intros Hd E L (n1 & H1). ev1 n1. cbn [p_if_nl]. rewrite Hd, E. cbn [col_inside].
+  rewrite (proj2 (Nat.leb_le off ec) L). cbn [andb]. rewrite H1 by lia. reflexivity.
+Qed.
+
+Lemma PNL_none off cond te r3 :
+  (head_is_eol r3 && col_inside off (skip_eol r3) = true -> hd_noelse (skip_eol r3)) ->
+  PNL off cond te r3 (EIf cond (Blk [SExpr te]) None) r3.
+Proof.
+  intros N. exists 1. intros n Hn. fuel n. cbn [p_if_nl].
+  destruct (head_is_eol r3 && col_inside off (skip_eol r3)); [|reflexivity]. specialize (N eq_refl).
+  destruct (skip_eol r3) as [|[t c] r]; [reflexivity|]. destruct t; try reflexivity; contradiction.
 Qed.
 
 Lemma PIF_none off ts cond c1 c2 r2 tb r3 :
@@ -113,18 +160,8 @@ Lemma PIF_none off ts cond c1 c2 r2 tb r3 :
   match skip_eol r3 with (TELSE, _) :: _ => False | (TELIF, _) :: _ => False | _ => True end ->
   PIF off ts (EIf cond tb None) r3.
 Proof.
-  intros (n1 & H1) (n2 & H2) N. ev2 n1 n2. cbn [p_if]. rewrite H1 by lia. cbn [bind]. rewrite H2 by lia. cbn [bind].
+  intros (n1 & H1) (n2 & H2) N. ev2 n1 n2. cbn [p_if]. rewrite H1 by lia. cbn [bind head_is_eol]. rewrite H2 by lia. cbn [bind].
   destruct (skip_eol r3) as [|[t c] r]; [reflexivity|]. destruct t; try reflexivity; contradiction.
-Qed.
-
-Lemma PIF_one_none off ts cond c1 t2 c2 r2 te r3 :
-  PE off ts cond ((TTHEN, c1) :: (t2, c2) :: r2) -> t2 <> TEOL ->
-  PE off ((t2, c2) :: r2) te r3 -> match r3 with (TELSE, _) :: _ => False | _ => True end ->
-  PIF off ts (EIf cond (Blk [SExpr te]) None) r3.
-Proof.
-  intros (n1 & H1) N (n2 & H2) NE. ev2 n1 n2. cbn [p_if]. rewrite H1 by lia. cbn [bind].
-  destruct t2; try congruence; rewrite H2 by lia; cbn [bind];
-    (destruct r3 as [|[t3 c3] r4]; [reflexivity|]; destruct t3; try reflexivity; contradiction).
 Qed.
 
 Lemma PAS_one off ts a r : PA off ts a r -> end_of_term r = true -> PAS off ts [a] r.
@@ -267,12 +304,6 @@ Lemma r_atoms_ACons c a l : r_atoms inner (ACons c a l) = r_atom inner c a ++ r_
 Proof. reflexivity. Qed.
 Lemma r_term_LApp c a l : r_term inner c (LApp a l) = r_atom inner c a ++ r_atoms inner l.
 Proof. reflexivity. Qed.
-Lemma r_term_LIf1 c cd t e : r_term inner c (LIf1 cd t (Some e)) =
-  (TIF, c) :: r_sx inner inner cd ++ (TTHEN, inner) :: r_sx inner inner t ++ (TELSE, inner) :: r_sx inner inner e.
-Proof. reflexivity. Qed.
-Lemma r_term_LIf1_none c cd t : r_term inner c (LIf1 cd t None) =
-  (TIF, c) :: r_sx inner inner cd ++ (TTHEN, inner) :: r_sx inner inner t.
-Proof. reflexivity. Qed.
 Lemma r_term_LSMatch c tg b0 arms : r_term inner c (LSMatch tg b0 arms) =
   (TMATCH, c) :: r_sx inner inner tg ++ (TWITH, inner) :: nl b0 ++ r_sarms inner arms.
 Proof. reflexivity. Qed.
@@ -287,16 +318,32 @@ Proof. reflexivity. Qed.
 Lemma r_sarms_SCons bc lit b bl r : r_sarms inner (SCons bc lit b bl r) =
   (TBAR, bc) :: (TSTR lit, inner) :: (TARROW, inner) :: r_body inner b ++ nl bl ++ r_sarms inner r.
 Proof. reflexivity. Qed.
-Lemma r_term_LIf c cd b1 t r : r_term inner c (LIf cd b1 t r) =
-  (TIF, c) :: r_sx inner inner cd ++ (TTHEN, inner) :: nl b1 ++ r_block inner t ++ r_ifrest inner r.
+Lemma r_term_LIf c cd tl : r_term inner c (LIf cd tl) =
+  (TIF, c) :: r_sx inner inner cd ++ (TTHEN, inner) :: r_tail inner tl.
+Proof. reflexivity. Qed.
+Lemma r_tail_TMulti b1 t r : r_tail inner (TMulti b1 t r) = nl b1 ++ r_block inner t ++ r_ifrest inner r.
+Proof. reflexivity. Qed.
+Lemma r_tail_TOne t r : r_tail inner (TOne t r) = r_sx inner inner t ++ r_1rest inner r.
+Proof. reflexivity. Qed.
+Lemma r_1rest_R1End : r_1rest inner R1End = [].
+Proof. reflexivity. Qed.
+Lemma r_1rest_R1Else e : r_1rest inner (R1Else e) = (TELSE, inner) :: r_sx inner inner e.
+Proof. reflexivity. Qed.
+Lemma r_1rest_R1Elif cd tl : r_1rest inner (R1Elif cd tl) =
+  (TELIF, inner) :: r_sx inner inner cd ++ (TTHEN, inner) :: r_tail inner tl.
+Proof. reflexivity. Qed.
+Lemma r_1rest_R1NlElse bl ec b : r_1rest inner (R1NlElse bl ec b) = nl bl ++ (TELSE, ec) :: r_body inner b.
+Proof. reflexivity. Qed.
+Lemma r_1rest_R1NlElif bl ec cd tl : r_1rest inner (R1NlElif bl ec cd tl) =
+  nl bl ++ (TELIF, ec) :: r_sx inner inner cd ++ (TTHEN, inner) :: r_tail inner tl.
 Proof. reflexivity. Qed.
 Lemma r_term_LMatch c tg b0 arms : r_term inner c (LMatch tg b0 arms) =
   (TMATCH, c) :: r_sx inner inner tg ++ (TWITH, inner) :: nl b0 ++ r_arms inner arms.
 Proof. reflexivity. Qed.
 Lemma r_ifrest_IElse bl ec b : r_ifrest inner (IElse bl ec b) = nl bl ++ (TELSE, ec) :: r_body inner b.
 Proof. reflexivity. Qed.
-Lemma r_ifrest_IElif bl ec cd b1 t r : r_ifrest inner (IElif bl ec cd b1 t r) =
-  nl bl ++ (TELIF, ec) :: r_sx inner inner cd ++ (TTHEN, inner) :: nl b1 ++ r_block inner t ++ r_ifrest inner r.
+Lemma r_ifrest_IElif bl ec cd tl : r_ifrest inner (IElif bl ec cd tl) =
+  nl bl ++ (TELIF, ec) :: r_sx inner inner cd ++ (TTHEN, inner) :: r_tail inner tl.
 Proof. reflexivity. Qed.
 Lemma r_body_BInline b : r_body inner (BInline b) = r_block inner b.
 Proof. reflexivity. Qed.
@@ -334,7 +381,19 @@ Lemma er_atoms_ACons c a l : er_atoms (ACons c a l) = er_atom a :: er_atoms l.
 Proof. reflexivity. Qed.
 Lemma er_term_LApp a l : er_term (LApp a l) = EApp (er_atom a :: er_atoms l).
 Proof. reflexivity. Qed.
-Lemma er_term_LIf c b1 t r : er_term (LIf c b1 t r) = EIf (er_sx c) (er_block t) (er_ifrest r).
+Lemma er_term_LIf c tl : er_term (LIf c tl) = er_tail (er_sx c) tl.
+Proof. reflexivity. Qed.
+Lemma er_tail_TMulti cond b1 t r : er_tail cond (TMulti b1 t r) = EIf cond (er_block t) (er_ifrest r).
+Proof. reflexivity. Qed.
+Lemma er_tail_TOne cond t r : er_tail cond (TOne t r) = EIf cond (Blk [SExpr (er_sx t)]) (er_1rest r).
+Proof. reflexivity. Qed.
+Lemma er_1rest_R1Else e : er_1rest (R1Else e) = Some (Blk [SExpr (er_sx e)]).
+Proof. reflexivity. Qed.
+Lemma er_1rest_R1Elif c tl : er_1rest (R1Elif c tl) = Some (Blk [SExpr (er_tail (er_sx c) tl)]).
+Proof. reflexivity. Qed.
+Lemma er_1rest_R1NlElse bl ec b : er_1rest (R1NlElse bl ec b) = Some (er_body b).
+Proof. reflexivity. Qed.
+Lemma er_1rest_R1NlElif bl ec c tl : er_1rest (R1NlElif bl ec c tl) = Some (Blk [SExpr (er_tail (er_sx c) tl)]).
 Proof. reflexivity. Qed.
 Lemma er_term_LSMatch tg b0 arms : er_term (LSMatch tg b0 arms) = EMatch (er_sx tg) (er_sarms arms).
 Proof. reflexivity. Qed.
@@ -348,8 +407,7 @@ Lemma er_term_LMatch tg b0 arms : er_term (LMatch tg b0 arms) = EMatch (er_sx tg
 Proof. reflexivity. Qed.
 Lemma er_ifrest_IElse bl ec b : er_ifrest (IElse bl ec b) = Some (er_body b).
 Proof. reflexivity. Qed.
-Lemma er_ifrest_IElif bl ec c b1 t r : er_ifrest (IElif bl ec c b1 t r) =
-  Some (Blk [SExpr (EIf (er_sx c) (er_block t) (er_ifrest r))]).
+Lemma er_ifrest_IElif bl ec c tl : er_ifrest (IElif bl ec c tl) = Some (Blk [SExpr (er_tail (er_sx c) tl)]).
 Proof. reflexivity. Qed.
 Lemma er_body_BInline b : er_body (BInline b) = er_block b.
 Proof. reflexivity. Qed.
@@ -385,7 +443,17 @@ Lemma wf_atoms_ACons off c a l : wf_atoms off (ACons c a l) = (wf_atom off a /\ 
 Proof. reflexivity. Qed.
 Lemma wf_term_LApp off a l : wf_term off (LApp a l) = (wf_atom off a /\ wf_atoms off l).
 Proof. reflexivity. Qed.
-Lemma wf_term_LIf off c b1 t r : wf_term off (LIf c b1 t r) = (wf_block off t /\ wf_ifrest off t r).
+Lemma wf_term_LIf off c tl : wf_term off (LIf c tl) = wf_tail off tl.
+Proof. reflexivity. Qed.
+Lemma wf_tail_TMulti off b1 t r : wf_tail off (TMulti b1 t r) = (wf_block off t /\ wf_ifrest off t r).
+Proof. reflexivity. Qed.
+Lemma wf_tail_TOne off t r : wf_tail off (TOne t r) = wf_1rest off r.
+Proof. reflexivity. Qed.
+Lemma wf_1rest_R1Elif off c tl : wf_1rest off (R1Elif c tl) = wf_tail off tl.
+Proof. reflexivity. Qed.
+Lemma wf_1rest_R1NlElse off bl ec b : wf_1rest off (R1NlElse bl ec b) = (off <= ec /\ wf_body off b).
+Proof. reflexivity. Qed.
+Lemma wf_1rest_R1NlElif off bl ec c tl : wf_1rest off (R1NlElif bl ec c tl) = (off <= ec /\ wf_tail off tl).
 Proof. reflexivity. Qed.
 Lemma wf_term_LSMatch off tg b0 arms : wf_term off (LSMatch tg b0 arms) =
   (match arms with SLast _ _ _ => False | SCons _ _ _ _ _ => True end /\ wf_sarms off None arms).
@@ -406,8 +474,8 @@ Proof. reflexivity. Qed.
 Lemma wf_ifrest_IElse off prev bl ec b : wf_ifrest off prev (IElse bl ec b) =
   (ec < bcol prev /\ block_io prev = false /\ wf_body off b).
 Proof. reflexivity. Qed.
-Lemma wf_ifrest_IElif off prev bl ec c b1 t r : wf_ifrest off prev (IElif bl ec c b1 t r) =
-  (ec < bcol prev /\ block_io prev = false /\ wf_block off t /\ wf_ifrest off t r).
+Lemma wf_ifrest_IElif off prev bl ec c tl : wf_ifrest off prev (IElif bl ec c tl) =
+  (ec < bcol prev /\ block_io prev = false /\ wf_tail off tl).
 Proof. reflexivity. Qed.
 Lemma wf_body_BInline off b : wf_body off (BInline b) = wf_block off b.
 Proof. reflexivity. Qed.
@@ -457,10 +525,9 @@ Proof. destruct a; cbn; eexists; eexists; split; try reflexivity; exact I. Qed.
 
 Lemma r_term_head c t k : exists t0 (r : list ptok), r_term inner c t ++ k = @cons ptok (t0, c) r /\ expr_head t0.
 Proof.
-  destruct t as [a l|cd t e|cd b1 t r|tg b0 arms|tg b0 arms].
+  destruct t as [a l|cd tl|tg b0 arms|tg b0 arms].
   - rewrite r_term_LApp, <- app_assoc. destruct (r_atom_head c a (r_atoms inner l ++ k)) as (t0 & r & E & H).
     exists t0, r. split; [exact E|]. apply atom_head_facts; exact H.
-  - destruct e; [rewrite r_term_LIf1|rewrite r_term_LIf1_none]; cbn [app]; eexists; eexists; (split; [reflexivity|exact I]).
   - rewrite r_term_LIf. cbn [app]. eexists; eexists; split; [reflexivity|exact I].
   - rewrite r_term_LMatch. cbn [app]. eexists; eexists; split; [reflexivity|exact I].
   - rewrite r_term_LSMatch. cbn [app]. eexists; eexists; split; [reflexivity|exact I].
@@ -548,8 +615,10 @@ Lemma r_sx_head c s k : exists a r, r_sx inner c s ++ k = (TA a, c) :: r.
 Proof. destruct s as [[a l] rest]. unfold r_sx, r_sxt. cbn. eexists; eexists; reflexivity. Qed.
 
 (* ---------------------------------------------------------------- continuation contracts *)
-Definition nohd_else (k : list ptok) : Prop := match k with (TELSE, _) :: _ => False | _ => True end.
+Definition nohd_else (k : list ptok) : Prop := hd_noelse k.
 Definition noelse (t : tok) : Prop := t <> TELSE /\ t <> TELIF.
+(** tokens that a construct of the current block may still take when they stand inside its offside line *)
+Definition takes (t : tok) : Prop := t = TBAR \/ t = TELSE \/ t = TELIF.
 
 (** what may follow a block of column c: the line ends (or ')' / end of input), and the next token is no
     operator, is ')' or strictly left of c, and is not else/elif when the block ends in an if without else *)
@@ -559,12 +628,12 @@ Definition bfol (c : nat) (io : bool) (k : list ptok) : Prop :=
     is_binop t = false /\ (t = TRP \/ c' < c) /\ (io = true -> noelse t) end.
 
 (** what may follow an expression / statement inside a block of column off: additionally the next token
-    is left of every block the construct leaves open (bd), and a '|' is left of off when the construct
-    ends with the arms of a union match *)
+    is left of every block the construct leaves open (bd), and a '|' / else / elif is left of off when the
+    construct ends with the arms of a union match or a one-line if without else (tm) *)
 Definition efol (off : nat) (bd : option nat) (tm io : bool) (k : list ptok) : Prop :=
   end_of_term k = true /\ nohd_else k /\
   match skip_eol k with [] => True | (t, c') :: _ =>
-    is_binop t = false /\ (forall b, bd = Some b -> t = TRP \/ c' < b) /\ (tm = true -> t = TBAR -> c' < off) /\
+    is_binop t = false /\ (forall b, bd = Some b -> t = TRP \/ c' < b) /\ (tm = true -> takes t -> c' < off) /\
     (io = true -> noelse t) end.
 
 Definition aft (bd : option nat) (k : list ptok) : list ptok :=
@@ -596,12 +665,32 @@ Lemma wf_body_col off b : wf_body off b -> off < body_col b.
 Proof. destruct b as [[c s r]|bl [c s r]]; cbn; intros (H & _); exact H. Qed.
 Lemma wf_block_col off b : wf_block off b -> off < bcol b.
 Proof. destruct b as [c s r]. cbn. intros (H & _); exact H. Qed.
-Lemma wf_ifrest_bd off r : forall prev, off < bcol prev -> wf_ifrest off prev r -> off < ifrest_bd (bcol prev) r.
+Scheme liftail_s := Induction for liftail Sort Prop
+  with lifrest_s := Induction for lifrest Sort Prop
+  with l1rest_s := Induction for l1rest Sort Prop.
+Combined Scheme if_mutind from liftail_s, lifrest_s, l1rest_s.
+
+Lemma wf_if_bd off :
+  (forall tl, wf_tail off tl -> forall b, tail_bd tl = Some b -> off < b) /\
+  (forall r, forall prev, off < bcol prev -> wf_ifrest off prev r -> forall b, ifrest_bd (bcol prev) r = Some b -> off < b) /\
+  (forall r, wf_1rest off r -> forall b, r1_bd r = Some b -> off < b).
 Proof.
-  induction r as [|bl ec b|bl ec cd b1 t r IH]; intros prev L; cbn [wf_ifrest ifrest_bd].
-  - intros _. exact L.
-  - intros (_ & _ & H). apply wf_body_col; exact H.
-  - intros (_ & _ & Wt & H). apply IH; [apply wf_block_col; exact Wt|exact H].
+  apply if_mutind.
+  - intros b1 t r IH W b E. rewrite wf_tail_TMulti in W. destruct W as (Wt & Wr).
+    cbn [tail_bd] in E. eapply IH; [apply wf_block_col; exact Wt|exact Wr|exact E].
+  - intros t r IH W b E. rewrite wf_tail_TOne in W. cbn [tail_bd] in E. eapply IH; eassumption.
+  - intros prev L _ b E. cbn [ifrest_bd] in E. inversion E; subst. exact L.
+  - intros bl ec b0 prev L W b E. rewrite wf_ifrest_IElse in W. destruct W as (_ & _ & Wb).
+    cbn [ifrest_bd] in E. inversion E; subst. apply wf_body_col; exact Wb.
+  - intros bl ec c tl IH prev L W b E. rewrite wf_ifrest_IElif in W. destruct W as (_ & _ & Wt).
+    cbn [ifrest_bd] in E. eapply IH; eassumption.
+  - intros _ b E. discriminate.
+  - intros e _ b E. discriminate.
+  - intros c tl IH W b E. rewrite wf_1rest_R1Elif in W. cbn [r1_bd] in E. eapply IH; eassumption.
+  - intros bl ec b0 W b E. rewrite wf_1rest_R1NlElse in W. destruct W as (_ & Wb).
+    cbn [r1_bd] in E. inversion E; subst. apply wf_body_col; exact Wb.
+  - intros bl ec c tl IH W b E. rewrite wf_1rest_R1NlElif in W. destruct W as (_ & Wt).
+    cbn [r1_bd] in E. eapply IH; eassumption.
 Qed.
 Lemma wf_arms_bd off prev a : wf_arms off prev a -> off < arms_bd a.
 Proof.
@@ -617,8 +706,8 @@ Proof.
 Qed.
 Lemma wf_term_bd off t b : wf_term off t -> term_bd t = Some b -> off < b.
 Proof.
-  destruct t as [a l|cd t e|cd b1 t r|tg b0 arms|tg b0 arms]; cbn [wf_term term_bd]; try discriminate.
-  - intros (Wt & H) E. inversion E; subst. apply wf_ifrest_bd; [apply wf_block_col; exact Wt|exact H].
+  destruct t as [a l|cd tl|tg b0 arms|tg b0 arms]; cbn [wf_term term_bd]; try discriminate.
+  - intros W E. eapply (proj1 (wf_if_bd off)); eassumption.
   - intros (_ & H) E. inversion E; subst. eapply wf_arms_bd; exact H.
   - intros (_ & H) E. inversion E; subst. eapply wf_sarms_bd; exact H.
 Qed.
@@ -642,7 +731,7 @@ Proof.
   intros W (E & NE & H). split; [exact E|]. split; [exact NE|]. destruct (skip_eol k) as [|[t c'] r]; [exact I|].
   destruct H as (N & C & IO). split; [exact N|]. split; [|split; [|exact IO]].
   - intros b Hb. destruct C as [C|C]; [left; exact C|right]. pose proof (wf_stmt_bd cb s b W Hb). lia.
-  - intros _ Ht. destruct C as [C|C]; [congruence|exact C].
+  - intros _ Ht. destruct C as [C|C]; [|exact C]. subst t. destruct Ht as [Ht|[Ht|Ht]]; discriminate.
 Qed.
 
 Lemma wf_rest_last c s r : wf_rest c s r -> last_is_expr (er_stmt s :: er_rest r) = true.
@@ -659,11 +748,20 @@ Definition Pas (l : latoms) := forall off a c k, Pa a -> wf_atom off a -> wf_ato
   PAS off (r_atom inner c a ++ r_atoms inner l ++ k) (er_atom a :: er_atoms l) k.
 Definition Pt (t : lterm) := forall off c k, wf_term off t -> tfol off t k ->
   PT off (r_term inner c t ++ k) (er_term t) (aft (term_bd t) k).
+Definition Ptail (tl : liftail) := forall off ts cond c1 k,
+  wf_tail off tl -> efol off (tail_bd tl) (tail_tm tl) (tail_io tl) k ->
+  PE off ts cond ((TTHEN, c1) :: r_tail inner tl ++ k) ->
+  PIF off ts (er_tail cond tl) (aft (tail_bd tl) k).
 Definition Pif (r : lifrest) := forall off prev ts cond c1 c2 r2 tb k,
-  wf_ifrest off prev r -> efol off (Some (ifrest_bd (bcol prev) r)) false (ifrest_io r) k ->
+  wf_ifrest off prev r -> efol off (ifrest_bd (bcol prev) r) (ifrest_tm r) (ifrest_io r) k ->
   PE off ts cond ((TTHEN, c1) :: (TEOL, c2) :: r2) ->
   PB off (skip_eol ((TEOL, c2) :: r2)) tb (skip_eol (r_ifrest inner r ++ k)) ->
-  PIF off ts (EIf cond tb (er_ifrest r)) (skip_eol k).
+  PIF off ts (EIf cond tb (er_ifrest r)) (aft (ifrest_bd (bcol prev) r) k).
+Definition P1 (r : l1rest) := forall off ts cond c1 t2 c2 r2 te k,
+  wf_1rest off r -> efol off (r1_bd r) (r1_tm r) (r1_io r) k ->
+  PE off ts cond ((TTHEN, c1) :: (t2, c2) :: r2) -> t2 <> TEOL ->
+  PE off ((t2, c2) :: r2) te (r_1rest inner r ++ k) ->
+  PIF off ts (EIf cond (Blk [SExpr te]) (er_1rest r)) (aft (r1_bd r) k).
 Definition Pbody (b : lbody) := forall off k, wf_body off b -> bfol (body_col b) (body_io b) k ->
   PB off (skip_eol (r_body inner b ++ k)) (er_body b) (skip_eol k).
 Definition Pe (e : lexpr) :=
@@ -690,7 +788,9 @@ Definition Psarms (a : lsarms) := forall off prev k, wf_sarms off prev a -> efol
 Scheme latom_m := Induction for latom Sort Prop
   with latoms_m := Induction for latoms Sort Prop
   with lterm_m := Induction for lterm Sort Prop
+  with liftail_m := Induction for liftail Sort Prop
   with lifrest_m := Induction for lifrest Sort Prop
+  with l1rest_m := Induction for l1rest Sort Prop
   with lbody_m := Induction for lbody Sort Prop
   with lexpr_m := Induction for lexpr Sort Prop
   with lstmt_m := Induction for lstmt Sort Prop
@@ -698,7 +798,7 @@ Scheme latom_m := Induction for latom Sort Prop
   with lrest_m := Induction for lrest Sort Prop
   with larms_m := Induction for larms Sort Prop
   with lsarms_m := Induction for lsarms Sort Prop.
-Combined Scheme l_mutind from latom_m, latoms_m, lterm_m, lifrest_m, lbody_m, lexpr_m, lstmt_m, lblock_m, lrest_m, larms_m, lsarms_m.
+Combined Scheme l_mutind from latom_m, latoms_m, lterm_m, liftail_m, lifrest_m, l1rest_m, lbody_m, lexpr_m, lstmt_m, lblock_m, lrest_m, larms_m, lsarms_m.
 
 Lemma span_pat p c r :
   span_until is_arrow (r_pat inner p ++ (TARROW, c) :: r) = (er_pat p, (TARROW, c) :: r).
@@ -717,10 +817,10 @@ Qed.
 
 (* the contract of a then-block followed by the rest of the if *)
 Lemma then_block_fol off t r k :
-  wf_ifrest off t r -> efol off (Some (ifrest_bd (bcol t) r)) false (ifrest_io r) k ->
+  wf_ifrest off t r -> efol off (ifrest_bd (bcol t) r) (ifrest_tm r) (ifrest_io r) k ->
   bfol (bcol t) (block_io t) (r_ifrest inner r ++ k).
 Proof.
-  intros Wr F. destruct r as [|bl ec b|bl ec cd' b1' t' r'].
+  intros Wr F. destruct r as [|bl ec b|bl ec cd' tl'].
   - rewrite r_ifrest_IEnd. cbn [app]. cbn [ifrest_bd ifrest_io] in F.
     destruct F as (E & NE & F). split; [exact E|]. split; [exact NE|].
     destruct (skip_eol k) as [|[t0 c0] r0]; [exact I|]. destruct F as (N & B & _ & IO).
@@ -735,8 +835,21 @@ Proof.
     split; [reflexivity|]. split; [right; exact L|]. rewrite IOt. discriminate.
 Qed.
 
+(* what follows a same-line then-body *)
+Lemma r1rest_fol off r k : efol off (r1_bd r) (r1_tm r) (r1_io r) k ->
+  end_of_term (r_1rest inner r ++ k) = true /\ nobin (skip_eol (r_1rest inner r ++ k)).
+Proof.
+  intros F. destruct r as [|e|cd tl|bl ec b|bl ec cd tl].
+  - rewrite r_1rest_R1End. cbn [app]. split; [apply F|eapply efol_nobin; exact F].
+  - rewrite r_1rest_R1Else. split; reflexivity.
+  - rewrite r_1rest_R1Elif. split; reflexivity.
+  - rewrite r_1rest_R1NlElse, <- app_assoc, skip_nl. split; reflexivity.
+  - rewrite r_1rest_R1NlElif, <- app_assoc, skip_nl. split; reflexivity.
+Qed.
+
 Theorem inversion :
-  (forall a, Pa a) /\ (forall l, Pas l) /\ (forall t, Pt t) /\ (forall r, Pif r) /\ (forall b, Pbody b) /\
+  (forall a, Pa a) /\ (forall l, Pas l) /\ (forall t, Pt t) /\ (forall tl, Ptail tl) /\ (forall r, Pif r) /\
+  (forall r, P1 r) /\ (forall b, Pbody b) /\
   (forall e, Pe e) /\ (forall s, Ps s) /\ (forall b, Pb b) /\ (forall r, Pr r) /\ (forall a, Parms a) /\
   (forall a, Psarms a).
 Proof.
@@ -770,31 +883,11 @@ Proof.
     rewrite r_term_LApp, er_term_LApp. cbn [term_bd aft]. rewrite <- app_assoc.
     destruct (r_atom_head c a (r_atoms inner l ++ k)) as (t0 & r & E0 & H0).
     pose proof (IHl off a c k IHa Wa Wl F) as P. rewrite E0 in *. apply PT_atoms; [exact H0|exact P].
-  - (* LIf1 *)
-    intros cd t e off c k _ F. cbn [tfol term_bd term_tm term_io] in F. destruct F as (E & NE & F).
-    assert (NB : nobin (skip_eol k)).
-    { destruct (skip_eol k) as [|[t0 c0] r0]; [exact I|]. apply F. }
-    destruct e as [e|].
-    + rewrite r_term_LIf1. cbn [er_term term_bd aft]. norm_app. apply PT_if.
-      destruct (r_sx_head inner t ((TELSE, inner) :: r_sx inner inner e ++ k)) as (a2 & r2 & E2).
-      eapply PIF_one with (t2 := TA a2) (c2 := inner) (r2 := r2) (c3 := inner).
-      * rewrite <- E2. apply PE_sx; [reflexivity|cbn; reflexivity].
-      * discriminate.
-      * rewrite <- E2. apply PE_sx; [reflexivity|cbn; reflexivity].
-      * apply PE_sx; [exact E|exact NB].
-    + rewrite r_term_LIf1_none. cbn [er_term term_bd aft]. norm_app. apply PT_if.
-      destruct (r_sx_head inner t k) as (a2 & r2 & E2).
-      eapply PIF_one_none with (t2 := TA a2) (c2 := inner) (r2 := r2).
-      * rewrite <- E2. apply PE_sx; [reflexivity|cbn; reflexivity].
-      * discriminate.
-      * rewrite <- E2. apply PE_sx; [exact E|exact NB].
-      * destruct k as [|[t0 c0] r0]; [exact I|]. destruct t0; try exact I. exact NE.
   - (* LIf *)
-    intros cd b1 t IHt r IHr off c k W F. rewrite wf_term_LIf in W. destruct W as (Wt & Wr). cbn [tfol term_bd term_tm term_io] in F.
-    rewrite r_term_LIf, er_term_LIf. cbn [term_bd aft]. norm_app. apply PT_if.
-    eapply IHr with (c1 := inner) (c2 := inner) (r2 := eols b1 ++ r_block inner t ++ r_ifrest inner r ++ k); [exact Wr|exact F| |].
-    + apply PE_sx; [reflexivity|cbn; reflexivity].
-    + cbn [skip_eol]. rewrite skip_eols, skip_block. apply IHt; [exact Wt|]. apply (then_block_fol off t r k Wr F).
+    intros cd tl IHtl off c k W F. rewrite wf_term_LIf in W. cbn [tfol term_bd term_tm term_io] in F.
+    rewrite r_term_LIf, er_term_LIf. cbn [term_bd]. norm_app. apply PT_if.
+    eapply IHtl with (c1 := inner); [exact W|exact F|].
+    apply PE_sx; [reflexivity|cbn; reflexivity].
   - (* LMatch *)
     intros tg b0 arms IHa off c k W F. rewrite wf_term_LMatch in W. destruct W as (Wd & Wa). cbn [tfol term_bd term_tm term_io] in F.
     rewrite r_term_LMatch, er_term_LMatch. cbn [term_bd aft]. norm_app.
@@ -817,6 +910,20 @@ Proof.
       rewrite r_sarms_SCons in *. cbn [app] in *.
       rewrite (skip_eol_nonEOL TBAR bc _ ltac:(discriminate)).
       apply PRS_string; [reflexivity|reflexivity|exact P].
+  - (* TMulti *)
+    intros b1 t IHt r IHr off ts cond c1 k W F PEc. rewrite wf_tail_TMulti in W. destruct W as (Wt & Wr).
+    cbn [tail_bd tail_tm tail_io] in F. rewrite er_tail_TMulti. cbn [tail_bd].
+    rewrite r_tail_TMulti in PEc. revert PEc. norm_app. unfold Layout.nl at 1. cbn [app]. intros PEc.
+    eapply IHr; [exact Wr|exact F|exact PEc|].
+    cbn [skip_eol]. rewrite skip_eols, skip_block. apply IHt; [exact Wt|]. apply (then_block_fol off t r k Wr F).
+  - (* TOne *)
+    intros t r IHr off ts cond c1 k W F PEc. rewrite wf_tail_TOne in W.
+    cbn [tail_bd tail_tm tail_io] in F. rewrite er_tail_TOne. cbn [tail_bd].
+    rewrite r_tail_TOne in PEc. revert PEc. norm_app. intros PEc.
+    destruct (r_sx_head inner t (r_1rest inner r ++ k)) as (a2 & r2 & E2). rewrite E2 in PEc.
+    destruct (r1rest_fol off r k F) as (EK & NK).
+    eapply IHr; [exact W|exact F|exact PEc|discriminate|].
+    rewrite <- E2. apply PE_sx; assumption.
   - (* IEnd *)
     intros off prev ts cond c1 c2 r2 tb k _ F PEc PBt. rewrite r_ifrest_IEnd in PBt. cbn [app] in PBt. cbn [er_ifrest].
     eapply PIF_none; [exact PEc|exact PBt|]. rewrite skip_eol_idem.
@@ -831,16 +938,57 @@ Proof.
     + apply skip_eol_nonEOL. discriminate.
     + apply IHb; [exact Wb|]. eapply efol_bfol; exact F.
   - (* IElif *)
-    intros bl ec cd b1 t IHt r IHr off prev ts cond c1 c2 r2 tb k W F PEc PBt.
-    rewrite wf_ifrest_IElif in W. destruct W as (_ & _ & Wt & Wr). cbn [ifrest_bd ifrest_io] in F. rewrite er_ifrest_IElif.
+    intros bl ec cd tl IHtl off prev ts cond c1 c2 r2 tb k W F PEc PBt.
+    rewrite wf_ifrest_IElif in W. destruct W as (_ & _ & Wt). cbn [ifrest_bd ifrest_tm ifrest_io] in F. rewrite er_ifrest_IElif.
+    cbn [ifrest_bd].
     rewrite r_ifrest_IElif, <- app_assoc, skip_nl in PBt. cbn [app] in PBt.
     rewrite (skip_eol_nonEOL TELIF ec _ ltac:(discriminate)) in PBt.
     eapply PIF_elif; [exact PEc|exact PBt| |].
     + apply skip_eol_nonEOL. discriminate.
-    + norm_app.
-      eapply IHr with (c1 := inner) (c2 := inner) (r2 := eols b1 ++ r_block inner t ++ r_ifrest inner r ++ k); [exact Wr|exact F| |].
-      * apply PE_sx; [reflexivity|cbn; reflexivity].
-      * cbn [skip_eol]. rewrite skip_eols, skip_block. apply IHt; [exact Wt|]. apply (then_block_fol off t r k Wr F).
+    + norm_app. eapply IHtl with (c1 := inner); [exact Wt|exact F|].
+      apply PE_sx; [reflexivity|cbn; reflexivity].
+  - (* R1End *)
+    intros off ts cond c1 t2 c2 r2 te k _ F PEc N PEt. rewrite r_1rest_R1End in PEt. cbn [app] in PEt.
+    cbn [r1_bd r1_tm r1_io] in F. cbn [er_1rest r1_bd aft].
+    eapply PIF_to1; [exact PEc|destruct t2; try reflexivity; congruence|].
+    eapply PIF1_nl; [exact PEt|apply F|].
+    apply PNL_none. intros Hn. apply andb_prop in Hn. destruct Hn as (_ & Hc).
+    destruct F as (_ & _ & F). destruct (skip_eol k) as [|[t0 c0] r0]; [exact I|].
+    destruct F as (_ & _ & TM & _). cbn [col_inside] in Hc. apply Nat.leb_le in Hc.
+    destruct t0; try exact I.
+    * specialize (TM eq_refl (or_intror (or_introl eq_refl))). lia.
+    * specialize (TM eq_refl (or_intror (or_intror eq_refl))). lia.
+  - (* R1Else *)
+    intros e off ts cond c1 t2 c2 r2 te k _ F PEc N PEt. rewrite r_1rest_R1Else in PEt. cbn [app] in PEt.
+    cbn [r1_bd r1_tm r1_io] in F. rewrite er_1rest_R1Else. cbn [r1_bd aft].
+    eapply PIF_to1; [exact PEc|destruct t2; try reflexivity; congruence|].
+    eapply PIF1_else; [exact PEt|]. apply PE_sx; [apply F|eapply efol_nobin; exact F].
+  - (* R1Elif *)
+    intros cd tl IHtl off ts cond c1 t2 c2 r2 te k W F PEc N PEt. rewrite wf_1rest_R1Elif in W.
+    rewrite r_1rest_R1Elif in PEt. cbn [app] in PEt. rewrite <- app_assoc in PEt. cbn [app] in PEt.
+    cbn [r1_bd r1_tm r1_io] in F. rewrite er_1rest_R1Elif. cbn [r1_bd].
+    eapply PIF_to1; [exact PEc|destruct t2; try reflexivity; congruence|].
+    eapply PIF1_elif; [exact PEt|].
+    eapply IHtl with (c1 := inner); [exact W|exact F|].
+    apply PE_sx; [reflexivity|cbn; reflexivity].
+  - (* R1NlElse *)
+    intros bl ec b IHb off ts cond c1 t2 c2 r2 te k W F PEc N PEt. rewrite wf_1rest_R1NlElse in W. destruct W as (L & Wb).
+    cbn [r1_bd r1_tm r1_io] in F. rewrite er_1rest_R1NlElse. cbn [r1_bd aft].
+    eapply PIF_to1; [exact PEc|destruct t2; try reflexivity; congruence|].
+    eapply PIF1_nl; [exact PEt|rewrite r_1rest_R1NlElse; exact I|].
+    eapply PNL_else with (ec := ec); [rewrite r_1rest_R1NlElse; reflexivity| |exact L|].
+    + rewrite r_1rest_R1NlElse, <- app_assoc, skip_nl. cbn [app]. apply skip_eol_nonEOL. discriminate.
+    + apply IHb; [exact Wb|]. eapply efol_bfol; exact F.
+  - (* R1NlElif *)
+    intros bl ec cd tl IHtl off ts cond c1 t2 c2 r2 te k W F PEc N PEt. rewrite wf_1rest_R1NlElif in W. destruct W as (L & Wt).
+    cbn [r1_bd r1_tm r1_io] in F. rewrite er_1rest_R1NlElif. cbn [r1_bd].
+    eapply PIF_to1; [exact PEc|destruct t2; try reflexivity; congruence|].
+    eapply PIF1_nl; [exact PEt|rewrite r_1rest_R1NlElif; exact I|].
+    eapply PNL_elif with (ec := ec); [rewrite r_1rest_R1NlElif; reflexivity| |exact L|].
+    + rewrite r_1rest_R1NlElif, <- app_assoc, skip_nl. cbn [app]. rewrite <- app_assoc. cbn [app].
+      apply skip_eol_nonEOL. discriminate.
+    + eapply IHtl with (c1 := inner); [exact Wt|exact F|].
+      apply PE_sx; [reflexivity|cbn; reflexivity].
   - (* BInline *)
     intros b IHb off k W F. rewrite wf_body_BInline in W. rewrite r_body_BInline, er_body_BInline, skip_block.
     apply IHb; assumption.
@@ -923,7 +1071,7 @@ Proof.
     assert (O : efol cb (stmt_bd s) (stmt_tm s) (stmt_io s) (nl bl ++ tail)).
     { split; [reflexivity|]. split; [exact I|]. rewrite Sk. split; [exact N4|]. split; [|split].
       - intros b Hb. right. rewrite Hb in Un. exact Un.
-      - intros _ Ht. congruence.
+      - intros _ Ht. destruct (stmt_head_noelse t0 H0). destruct Ht as [Ht|[Ht|Ht]]; congruence.
       - intros _. apply stmt_head_noelse. exact H0. }
     pose proof (PSs cb c _ Ws O) as P1.
     eapply PSS_cons; [exact P1| |].
@@ -938,7 +1086,7 @@ Proof.
     cbn [app]. rewrite <- app_assoc. cbn [app]. split.
     + apply PUR_last; [exact R|].
       destruct F as (_ & _ & F). destruct (skip_eol k) as [|[t c'] r]; [reflexivity|]. destruct F as (_ & _ & F & _).
-      destruct t; try reflexivity. cbn [bar_inside]. apply Nat.leb_gt. apply F; reflexivity.
+      destruct t; try reflexivity. cbn [bar_inside]. apply Nat.leb_gt. apply F; [reflexivity|left; reflexivity].
     + intros bc0 p0 b0 E. inversion E; subst. exact R.
   - (* MCons *)
     intros bc p b IHb bl r IHr off prev k W F. rewrite wf_arms_MCons in W. destruct W as (Lb & _ & ND & Wb & Wr). cbn [arms_bd arms_io] in F.
@@ -1022,7 +1170,7 @@ Proof. split; [reflexivity|]. split; exact I. Qed.
 Corollary block_inversion b off : wf_block off b ->
   exists n0, forall n, n0 <= n -> p_block n off (r_block inner b) = Ok (er_block b, []).
 Proof.
-  intros W. destruct inversion as (_ & _ & _ & _ & _ & _ & _ & HB & _).
+  intros W. destruct inversion as (_ & _ & _ & _ & _ & _ & _ & _ & _ & HB & _).
   pose proof (HB b off [] W (bfol_nil _ _)) as P. rewrite app_nil_r in P. exact P.
 Qed.
 
@@ -1033,7 +1181,7 @@ Corollary dedent_ends_block_k b off k t c' r :
   (block_io b = true -> noelse t) -> c' < bcol b ->
   exists n0, forall n, n0 <= n -> p_block n off (r_block inner b ++ k) = Ok (er_block b, (t, c') :: r).
 Proof.
-  intros W E NE S N IO L. destruct inversion as (_ & _ & _ & _ & _ & _ & _ & HB & _).
+  intros W E NE S N IO L. destruct inversion as (_ & _ & _ & _ & _ & _ & _ & _ & _ & HB & _).
   rewrite <- S. apply HB; [exact W|]. split; [exact E|]. split; [exact NE|]. rewrite S.
   split; [exact N|]. split; [right; exact L|exact IO].
 Qed.
@@ -1052,7 +1200,7 @@ Qed.
 Lemma prog_inversion : forall p prev, wf_prog prev p ->
   exists n0, forall n, n0 <= n -> p_root n (r_prog inner p) = Ok (er_prog p).
 Proof.
-  destruct inversion as (_ & _ & _ & _ & _ & _ & HS & _).
+  destruct inversion as (_ & _ & _ & _ & _ & _ & _ & _ & HS & _).
   induction p as [|[[bl c] s] p IH]; intros prev W.
   - exists 1. intros n Hn. fuel n. reflexivity.
   - cbn [wf_prog] in W. destruct W as (_ & Ws & NE & Wp).
@@ -1065,7 +1213,7 @@ Proof.
       destruct (stmt_head_facts t0 H0) as (N1 & N2 & N3 & N4).
       split; [exact N4|]. split; [|split].
       - intros b Hb. right. cbn [wf_prog] in Wp. destruct Wp as (U & _). rewrite Hb in U. exact U.
-      - intros _ Ht. congruence.
+      - intros _ Ht. destruct (stmt_head_noelse t0 H0). destruct Ht as [Ht|[Ht|Ht]]; congruence.
       - intros _. apply stmt_head_noelse. exact H0. }
     destruct (HS s 0 c k Ws F) as (n1 & H1).
     exists (S (Nat.max n1 n2)). intros n Hn. fuel n.
